@@ -1,0 +1,343 @@
+//! Verification hooks (feature `verif-hooks`, off by default).
+//!
+//! A per-byte shadow travels with every [`RecordMaybeUninit`] and records which
+//! bytes currently hold a value, of which type, and whether that value needs to
+//! be dropped. The four access primitives report here *before* they touch the
+//! storage. Nothing in this module panics or changes control flow: findings are
+//! appended to a global event log (and echoed on stderr so that they survive a
+//! later crash of the process).
+
+use std::sync::atomic::{AtomicU64, AtomicU8, Ordering};
+use std::sync::Mutex;
+
+use super::RecordMaybeUninit;
+
+/// Shadow of one byte of storage: `[state | flags, type hash lo, type hash hi, reserved]`.
+pub(super) type ShadowByte = [AtomicU8; 4];
+
+const STATE_MASK: u8 = 0x03;
+const UNOWNED: u8 = 0;
+const OWNED: u8 = 1;
+const MOVED_OUT: u8 = 2;
+const FIRST: u8 = 0x10;
+const DROPPABLE: u8 = 0x20;
+
+/// Which primitive was called.
+#[derive(Clone, Copy, Debug, PartialEq, Eq)]
+pub enum Access {
+    Read,
+    Write,
+    Get,
+    GetMut,
+    BufferDrop,
+}
+
+/// What was found.
+#[derive(Clone, Copy, Debug, PartialEq, Eq, PartialOrd, Ord)]
+pub enum EventKind {
+    /// `offset + size_of::<T>() > CAP`.
+    OutOfBounds,
+    /// Typed load (`read`) from an address that is not a multiple of `align_of::<T>()`.
+    MisalignedLoad,
+    /// Reference (`get` / `get_mut`) to an address that is not a multiple of `align_of::<T>()`.
+    MisalignedRef,
+    /// The access overlaps a stored droppable value without being exactly that value's span and
+    /// type.
+    TypeConfusion,
+    /// A droppable value is read or referenced where the value was already moved out.
+    MovedOutAccess,
+    /// A droppable value is read or referenced where nothing was ever stored.
+    UnownedAccess,
+    /// A store lands on a droppable value the record still owns.
+    StoreOverOwned,
+    /// The buffer is dropped while it still owns a droppable value.
+    LeakAtBufferDrop,
+}
+
+/// One finding.
+#[derive(Clone, Debug)]
+pub struct Event {
+    pub kind: EventKind,
+    pub access: Access,
+    pub offset: usize,
+    pub size: usize,
+    pub align: usize,
+    pub cap: usize,
+    pub addr: usize,
+    pub type_name: &'static str,
+}
+
+/// Counters of what the hooks observed (events or not).
+#[derive(Clone, Copy, Debug, Default, PartialEq, Eq)]
+pub struct Counters {
+    pub reads: u64,
+    pub writes: u64,
+    pub gets: u64,
+    pub get_muts: u64,
+    pub buffer_drops: u64,
+    pub droppable_reads: u64,
+    pub droppable_writes: u64,
+    pub misaligned_store_destinations: u64,
+    pub bytes_checked: u64,
+    pub events: u64,
+}
+
+static READS: AtomicU64 = AtomicU64::new(0);
+static WRITES: AtomicU64 = AtomicU64::new(0);
+static GETS: AtomicU64 = AtomicU64::new(0);
+static GET_MUTS: AtomicU64 = AtomicU64::new(0);
+static BUFFER_DROPS: AtomicU64 = AtomicU64::new(0);
+static DROPPABLE_READS: AtomicU64 = AtomicU64::new(0);
+static DROPPABLE_WRITES: AtomicU64 = AtomicU64::new(0);
+static MISALIGNED_STORE_DESTINATIONS: AtomicU64 = AtomicU64::new(0);
+static BYTES_CHECKED: AtomicU64 = AtomicU64::new(0);
+static EVENTS: AtomicU64 = AtomicU64::new(0);
+
+static LOG: Mutex<Vec<Event>> = Mutex::new(Vec::new());
+
+/// Maximum number of events kept in the log (the counter keeps counting).
+const LOG_LIMIT: usize = 10_000;
+
+/// Returns and clears the event log.
+pub fn take_events() -> Vec<Event> {
+    let mut log = LOG.lock().unwrap_or_else(|e| e.into_inner());
+    std::mem::take(&mut *log)
+}
+
+/// Returns the counters.
+pub fn counters() -> Counters {
+    Counters {
+        reads: READS.load(Ordering::Relaxed),
+        writes: WRITES.load(Ordering::Relaxed),
+        gets: GETS.load(Ordering::Relaxed),
+        get_muts: GET_MUTS.load(Ordering::Relaxed),
+        buffer_drops: BUFFER_DROPS.load(Ordering::Relaxed),
+        droppable_reads: DROPPABLE_READS.load(Ordering::Relaxed),
+        droppable_writes: DROPPABLE_WRITES.load(Ordering::Relaxed),
+        misaligned_store_destinations: MISALIGNED_STORE_DESTINATIONS.load(Ordering::Relaxed),
+        bytes_checked: BYTES_CHECKED.load(Ordering::Relaxed),
+        events: EVENTS.load(Ordering::Relaxed),
+    }
+}
+
+fn type_hash(name: &str) -> u16 {
+    // FNV-1a folded to 16 bits, never 0
+    let mut h: u32 = 0x811c_9dc5;
+    for b in name.bytes() {
+        h ^= b as u32;
+        h = h.wrapping_mul(0x0100_0193);
+    }
+    let h = ((h >> 16) ^ (h & 0xffff)) as u16;
+    if h == 0 {
+        1
+    } else {
+        h
+    }
+}
+
+fn report(event: Event) {
+    EVENTS.fetch_add(1, Ordering::Relaxed);
+    eprintln!(
+        "VERIF-HOOK-EVENT kind={:?} access={:?} offset={} size={} align={} cap={} addr={:#x} type={}",
+        event.kind,
+        event.access,
+        event.offset,
+        event.size,
+        event.align,
+        event.cap,
+        event.addr,
+        event.type_name
+    );
+    let mut log = LOG.lock().unwrap_or_else(|e| e.into_inner());
+    if log.len() < LOG_LIMIT {
+        log.push(event);
+    }
+}
+
+pub(super) fn on_access<T, const CAP: usize>(
+    record: &RecordMaybeUninit<CAP>,
+    access: Access,
+    offset: usize,
+) {
+    let size = std::mem::size_of::<T>();
+    let align = std::mem::align_of::<T>();
+    let droppable = std::mem::needs_drop::<T>();
+    let type_name = std::any::type_name::<T>();
+    let addr = (record.data.as_ptr() as usize).wrapping_add(offset);
+
+    match access {
+        Access::Read => {
+            READS.fetch_add(1, Ordering::Relaxed);
+            if droppable {
+                DROPPABLE_READS.fetch_add(1, Ordering::Relaxed);
+            }
+        }
+        Access::Write => {
+            WRITES.fetch_add(1, Ordering::Relaxed);
+            if droppable {
+                DROPPABLE_WRITES.fetch_add(1, Ordering::Relaxed);
+            }
+        }
+        Access::Get => {
+            GETS.fetch_add(1, Ordering::Relaxed);
+        }
+        Access::GetMut => {
+            GET_MUTS.fetch_add(1, Ordering::Relaxed);
+        }
+        Access::BufferDrop => {}
+    }
+
+    let event = |kind: EventKind| Event {
+        kind,
+        access,
+        offset,
+        size,
+        align,
+        cap: CAP,
+        addr,
+        type_name,
+    };
+
+    // Bounds, checked arithmetically
+    let end = match offset.checked_add(size) {
+        Some(end) if end <= CAP => end,
+        _ => {
+            report(event(EventKind::OutOfBounds));
+            // The shadow cannot be consulted outside the capacity
+            return;
+        }
+    };
+
+    // Alignment at the actual address
+    if addr % align != 0 {
+        match access {
+            Access::Read => report(event(EventKind::MisalignedLoad)),
+            Access::Get | Access::GetMut => report(event(EventKind::MisalignedRef)),
+            Access::Write => {
+                // Legal as long as the store does not require alignment: counted only
+                MISALIGNED_STORE_DESTINATIONS.fetch_add(1, Ordering::Relaxed);
+            }
+            Access::BufferDrop => {}
+        }
+    }
+
+    let hash = type_hash(type_name);
+    let hash_bytes = hash.to_le_bytes();
+
+    BYTES_CHECKED.fetch_add(size as u64, Ordering::Relaxed);
+
+    // What is stored where the access lands?
+    let mut confusion = false;
+    let mut owned_droppable = 0usize;
+    let mut moved_out = 0usize;
+    let mut unowned = 0usize;
+    for i in offset..end {
+        let cell = &record.shadow[i];
+        let b0 = cell[0].load(Ordering::Relaxed);
+        let state = b0 & STATE_MASK;
+        if state == OWNED && b0 & DROPPABLE != 0 {
+            owned_droppable += 1;
+            let same_type = cell[1].load(Ordering::Relaxed) == hash_bytes[0]
+                && cell[2].load(Ordering::Relaxed) == hash_bytes[1];
+            let first = b0 & FIRST != 0;
+            if !same_type || first != (i == offset) {
+                confusion = true;
+            }
+        } else if state == MOVED_OUT {
+            moved_out += 1;
+        } else if state == UNOWNED {
+            unowned += 1;
+        }
+    }
+    // A value of the same type that starts before or ends after the access
+    if !confusion && owned_droppable > 0 && end < CAP {
+        let cell = &record.shadow[end];
+        let b0 = cell[0].load(Ordering::Relaxed);
+        if b0 & STATE_MASK == OWNED && b0 & DROPPABLE != 0 && b0 & FIRST == 0 {
+            confusion = true;
+        }
+    }
+
+    match access {
+        Access::Write => {
+            if owned_droppable > 0 {
+                report(event(EventKind::StoreOverOwned));
+            }
+            for i in offset..end {
+                let cell = &record.shadow[i];
+                let mut b0 = OWNED;
+                if i == offset {
+                    b0 |= FIRST;
+                }
+                if droppable {
+                    b0 |= DROPPABLE;
+                }
+                cell[0].store(b0, Ordering::Relaxed);
+                cell[1].store(hash_bytes[0], Ordering::Relaxed);
+                cell[2].store(hash_bytes[1], Ordering::Relaxed);
+            }
+        }
+        Access::Read | Access::Get | Access::GetMut => {
+            if size == 0 {
+                return;
+            }
+            if droppable {
+                if confusion || (owned_droppable > 0 && owned_droppable < size) {
+                    report(event(EventKind::TypeConfusion));
+                } else if owned_droppable == size {
+                    // Exactly the stored value
+                    if access == Access::Read {
+                        for i in offset..end {
+                            let cell = &record.shadow[i];
+                            let b0 = cell[0].load(Ordering::Relaxed);
+                            cell[0].store((b0 & !STATE_MASK) | MOVED_OUT, Ordering::Relaxed);
+                        }
+                    }
+                } else if moved_out > 0 {
+                    report(event(EventKind::MovedOutAccess));
+                } else if unowned > 0 {
+                    report(event(EventKind::UnownedAccess));
+                }
+            } else if owned_droppable > 0 {
+                // Plain data access on top of a droppable value
+                report(event(EventKind::TypeConfusion));
+            }
+        }
+        Access::BufferDrop => {}
+    }
+}
+
+pub(super) fn on_buffer_drop<const CAP: usize>(record: &RecordMaybeUninit<CAP>) {
+    BUFFER_DROPS.fetch_add(1, Ordering::Relaxed);
+    let base = record.data.as_ptr() as usize;
+    let mut i = 0;
+    while i < CAP {
+        let cell = &record.shadow[i];
+        let b0 = cell[0].load(Ordering::Relaxed);
+        if b0 & STATE_MASK == OWNED && b0 & DROPPABLE != 0 {
+            // One event per stored value
+            let mut j = i + 1;
+            while j < CAP {
+                let n0 = record.shadow[j][0].load(Ordering::Relaxed);
+                if n0 & STATE_MASK == OWNED && n0 & DROPPABLE != 0 && n0 & FIRST == 0 {
+                    j += 1;
+                } else {
+                    break;
+                }
+            }
+            report(Event {
+                kind: EventKind::LeakAtBufferDrop,
+                access: Access::BufferDrop,
+                offset: i,
+                size: j - i,
+                align: 1,
+                cap: CAP,
+                addr: base.wrapping_add(i),
+                type_name: "<stored droppable value>",
+            });
+            i = j;
+        } else {
+            i += 1;
+        }
+    }
+}
